@@ -1,5 +1,201 @@
 package main
 
-func cmdSelftest(args []string) int { return 0 }
+// Checker-health machinery: the mutant corpus. Each mutant is a search/replace edit applied
+// to a scratch copy of the CURRENT /repo tree; the property's check is run on the copy in
+// a separate process. A surviving mutant is a checker-health warning, not a property
+// violation (the tree is not the mutant).
 
-func runThorough(c *Ctx, prop Property, extra map[string]any) {}
+import (
+	"encoding/json"
+	"fmt"
+	"io/fs"
+	"os"
+	"os/exec"
+	"path/filepath"
+	"sort"
+	"strings"
+	"sync"
+)
+
+type Mutant struct {
+	ID      string `json:"id"`
+	File    string `json:"file"`
+	Find    string `json:"find"`
+	Replace string `json:"replace"`
+	Rule    string `json:"rule,omitempty"`   // rule expected to fire
+	Benign  bool   `json:"benign,omitempty"` // behaviour-preserving edit: the check must stay silent
+	Note    string `json:"note,omitempty"`
+}
+
+type MutantResult struct {
+	ID      string `json:"id"`
+	Applied bool   `json:"applied"`
+	Builds  bool   `json:"builds"`
+	Killed  bool   `json:"killed"`
+	Benign  bool   `json:"benign,omitempty"`
+	OK      bool   `json:"ok"` // killed for breaking mutants, silent for benign ones
+	Report  string `json:"report,omitempty"`
+}
+
+func loadMutants(prop string) []Mutant {
+	b, err := os.ReadFile(filepath.Join(verifDir(), "mutants", prop+".json"))
+	if err != nil {
+		return nil
+	}
+	var ms []Mutant
+	if err := json.Unmarshal(b, &ms); err != nil {
+		fmt.Fprintf(os.Stderr, "mutants/%s.json: %v\n", prop, err)
+		return nil
+	}
+	return ms
+}
+
+func copyTree(src, dst string) error {
+	return filepath.WalkDir(src, func(path string, d fs.DirEntry, err error) error {
+		if err != nil {
+			return err
+		}
+		rel, _ := filepath.Rel(src, path)
+		if d.IsDir() {
+			if d.Name() == ".git" {
+				return filepath.SkipDir
+			}
+			return os.MkdirAll(filepath.Join(dst, rel), 0o755)
+		}
+		if !d.Type().IsRegular() {
+			return nil
+		}
+		b, err := os.ReadFile(path)
+		if err != nil {
+			return err
+		}
+		return os.WriteFile(filepath.Join(dst, rel), b, 0o644)
+	})
+}
+
+func runMutant(prop string, m Mutant, checkBuild bool) MutantResult {
+	res := MutantResult{ID: m.ID, Benign: m.Benign}
+	tmp, err := os.MkdirTemp("", "qfsa-mut-")
+	if err != nil {
+		res.Report = err.Error()
+		return res
+	}
+	defer os.RemoveAll(tmp)
+	if err := copyTree(repoDir(), tmp); err != nil {
+		res.Report = err.Error()
+		return res
+	}
+	fp := filepath.Join(tmp, m.File)
+	b, err := os.ReadFile(fp)
+	if err != nil {
+		res.Report = err.Error()
+		return res
+	}
+	s := string(b)
+	if n := strings.Count(s, m.Find); n != 1 {
+		res.Report = fmt.Sprintf("anchor snippet occurs %d times (need exactly 1): skipped", n)
+		return res
+	}
+	s = strings.Replace(s, m.Find, m.Replace, 1)
+	if err := os.WriteFile(fp, []byte(s), 0o644); err != nil {
+		res.Report = err.Error()
+		return res
+	}
+	res.Applied = true
+	exe, _ := os.Executable()
+	cmd := exec.Command(exe, "check", prop, "--no-evidence")
+	cmd.Env = append(os.Environ(), "QFSA_REPO="+tmp, "QFSA_VERIF="+verifDir(), "VERIF_TIER=quick")
+	out, err := cmd.CombinedOutput()
+	txt := string(out)
+	res.Builds = !strings.Contains(txt, "UNDECIDED load")
+	res.Killed = err != nil && strings.Contains(txt, "VIOLATION property="+prop)
+	var rep []string
+	for _, l := range strings.Split(txt, "\n") {
+		if strings.HasPrefix(l, "VIOLATED") || strings.HasPrefix(l, "UNDECIDED") {
+			rep = append(rep, l)
+		}
+	}
+	if len(rep) > 3 {
+		rep = append(rep[:3], fmt.Sprintf("… %d more", len(rep)-3))
+	}
+	res.Report = strings.Join(rep, " | ")
+	if m.Benign {
+		res.OK = res.Builds && !res.Killed
+	} else {
+		res.OK = res.Builds && res.Killed
+		if m.Rule != "" && res.Killed && !strings.Contains(txt, "rule="+m.Rule) {
+			res.Report = "killed, but not by expected rule " + m.Rule + ": " + res.Report
+		}
+	}
+	return res
+}
+
+func runMutants(prop string, par int) []MutantResult {
+	ms := loadMutants(prop)
+	res := make([]MutantResult, len(ms))
+	sem := make(chan struct{}, par)
+	var wg sync.WaitGroup
+	for i, m := range ms {
+		wg.Add(1)
+		go func(i int, m Mutant) {
+			defer wg.Done()
+			sem <- struct{}{}
+			defer func() { <-sem }()
+			res[i] = runMutant(prop, m, false)
+		}(i, m)
+	}
+	wg.Wait()
+	return res
+}
+
+func runThorough(c *Ctx, prop Property, extra map[string]any) {
+	res := runMutants(prop.ID, 8)
+	killed, benignOK, nb, nk := 0, 0, 0, 0
+	for _, r := range res {
+		if r.Benign {
+			nb++
+			if r.OK {
+				benignOK++
+			}
+		} else {
+			nk++
+			if r.OK {
+				killed++
+			}
+		}
+	}
+	extra["mutants"] = res
+	extra["mutants_summary"] = fmt.Sprintf("%d/%d breaking edits detected, %d/%d behaviour-preserving edits left silent (checker health, not a verdict on /repo)", killed, nk, benignOK, nb)
+}
+
+// selftest: run the mutant corpus of the given properties (or all) and print a table.
+func cmdSelftest(args []string) int {
+	ids := args
+	if len(ids) == 0 {
+		for k := range registry {
+			ids = append(ids, k)
+		}
+	}
+	sort.Strings(ids)
+	bad := 0
+	for _, id := range ids {
+		res := runMutants(id, 10)
+		for _, r := range res {
+			st := "ok  "
+			if !r.OK {
+				st = "FAIL"
+				bad++
+			}
+			kind := "break "
+			if r.Benign {
+				kind = "benign"
+			}
+			fmt.Printf("%s %s %s %-32s applied=%v builds=%v killed=%v %s\n", st, id, kind, r.ID, r.Applied, r.Builds, r.Killed, r.Report)
+		}
+	}
+	if bad > 0 {
+		fmt.Printf("%d mutant expectation(s) not met\n", bad)
+		return 1
+	}
+	return 0
+}
